@@ -153,7 +153,7 @@ def run(ctx):
                 c = make_case(rng, ctx, ek, 0, fixed=(fixed[ek], sts))
                 c["sch_ref"] = "fx_" + ek
                 cases.append(("corpus", c))
-    for i in range(ctx.budget(600, 10000)):
+    for i in range(ctx.budget(450, 10000)):
         ek = eks[i % len(eks)]
         if i % 3 == 0:
             cases.append(("random-accepted", make_case(rng, ctx, ek, rng.range(1, 5), rich=True, lits=True, wrong=0)))
@@ -230,7 +230,7 @@ def run(ctx):
     # a kept option must be one that cannot be interpreted: strict interpretation of (the interpreted options + that one) fails
     probes = []
     for mode, idx, rc, kept, tree in reduced:
-        if mode != "lenient" or len(kept) > 3 or len(probes) >= ctx.budget(300, 5000):
+        if mode != "lenient" or len(kept) > 3 or len(probes) >= ctx.budget(200, 5000):
             continue
         klass, c, o = meta[idx]
         oe = find_elem(o["orig"], c["key"])
